@@ -74,10 +74,17 @@ fn decode(ctx: &Ctx, tape: &[u32], disk: DiskCfg) -> HistCase {
                 stmts.push(Stmt::Sql(format!("delete from {} where {}", td.name, p.print(Dialect::Rl))));
             }
             2 => {
-                let mut g = Gen { t: &mut t, cfg: cfg.clone(), schema: &schema, alias_no: 0 };
-                let q = g.query(0);
+                // one in four: a key-range scan (optionally ordered by the key, limited)
+                let keyed: Vec<&TableDef> = schema.iter().filter(|td| td.cols.iter().any(|c| c.pk && c.ty == Ty::Int)).collect();
+                let q = if !keyed.is_empty() && t.chance(1, 4) {
+                    let td = keyed[t.pick(keyed.len())];
+                    key_range_query(&mut t, td).unwrap()
+                } else {
+                    let mut g = Gen { t: &mut t, cfg: cfg.clone(), schema: &schema, alias_no: 0 };
+                    g.query(0)
+                };
                 let sql = q.print(Dialect::Rl);
-                let unl = q.print_opts(Dialect::Rl, true, false);
+                let unl = q.print_unlimited(Dialect::Rl);
                 stmts.push(Stmt::Query(q, sql, unl));
             }
             _ => stmts.push(Stmt::Tick),
@@ -137,7 +144,7 @@ fn test(ctx: &Ctx, case: &HistCase, st: &mut Stats) -> Verdict {
                 }
                 Stmt::Query(q, sql, unl) => {
                     let a = exec(&mem, sql).await;
-                    let _ = take_panics();
+                    let pa = take_panics();
                     let b = exec(&disk, sql).await;
                     let pb = take_panics();
                     st.evals(2);
@@ -170,6 +177,17 @@ fn test(ctx: &Ctx, case: &HistCase, st: &mut Stats) -> Verdict {
                             // statistics, key order). Whether every accepted statement gets an
                             // executable plan is C17's question; nothing to compare here.
                             st.class(&format!("query-no-answer-on-one-engine:{}-vs-{}", x.class(), y.class()));
+                            // ... unless the failure does not come from planning at all
+                            let (bad, pp, which) = if matches!(x, Out::Rows(_)) { (y, &pb, "disk") } else { (x, &pa, "memory") };
+                            if matches!(x, Out::Rows(_)) || matches!(y, Out::Rows(_)) {
+                                if let Err(sig) = no_answer(bad, pp) {
+                                    verdict = fail(
+                                        format!("query:{which}:{sig}"),
+                                        format!("statement #{i} `{sql}`: memory {} vs disk {} — the {which} engine fails outside planning: {:?}\n  disk options: {:?}", x.brief(), y.brief(), pp, case.disk),
+                                    );
+                                    break;
+                                }
+                            }
                         }
                         (x, y) => {
                             verdict = fail(
